@@ -49,18 +49,38 @@ META = {
     "design_ref": "DESIGN.md section 3, C06",
 }
 
-TEXT = '''
+TEXTS = {
+    "flat": '''
 function f input Real u; output Real v; algorithm v := 2 * u; end f;
+model Base Real w0; end Base;
 model Leaf Real x; end Leaf;
-model Mid Leaf l; Real y; equation y = f(l.x) "Mid0"; end Mid;
+model Mid extends Base; Leaf l; Real y; equation y = f(l.x) "Mid0"; end Mid;
 model Top extends Mid; Bare b; Real z; equation z = y "Top0"; end Top;
 model Bare end Bare;
-'''
+''',
+    # several packages: Comp is not visible from Q.D (inherited component), package R comes after its users
+    "pkg": '''
+package P
+  model Comp R.Inner i; Real u; end Comp;
+  model Base Comp c; Real w; end Base;
+end P;
+package Q
+  model D extends P.Base; Real d; end D;
+end Q;
+package R
+  model Inner Real x; equation x = 1 "In0"; end Inner;
+  model Holder Inner h; end Holder;
+  model Special extends Inner; Real sp; end Special;
+end R;
+''',
+}
+TEXT = TEXTS["flat"]
 # equations that the edits add are taken from a freshly parsed donor class (E1 calls the user function f)
 DONOR = '''
-model Donor Real x; equation x = f(2.0) "E1"; x = 7 "E2"; initial equation x = 0 "I1"; end Donor;
+model Donor Real x; equation x = f(2.0) "E1"; x = 7 "E2"; x = 9 "E9"; initial equation x = 0 "I1"; end Donor;
 '''
-CLASSES = ["f", "Leaf", "Mid", "Top", "Bare"]
+CLASSES_OF = {"flat": ["f", "Base", "Leaf", "Mid", "Top", "Bare"],
+              "pkg": ["P.Comp", "P.Base", "Q.D", "R.Inner", "R.Holder", "R.Special"]}
 EXPLAINS, NOT_EXPLAINS = "asbuilt:explains", "asbuilt:does-not-explain"
 DEV_HERE, SAME_HERE = "asbuilt:deviates-here", "asbuilt:same-here"
 
@@ -78,25 +98,42 @@ def _variant():
 
 
 # ---------------------------------------------------------------------------------------------
+def get_node(tree, qualified):
+    n = tree
+    for part in qualified.split("."):
+        n = n.classes[part]
+    return n
+
+
+def lib_of(acts):
+    for a in acts:
+        if "c" in a:
+            return "pkg" if a["c"] in CLASSES_OF["pkg"] else "flat"
+    return "flat"
+
+
 class Adapter:
-    def __init__(self):
-        self.trees = [ct.fresh_tree(TEXT)]
+    def __init__(self, lib="flat"):
+        self.lib = lib
+        self.classes = CLASSES_OF[lib]
+        self.trees = [ct.fresh_tree(TEXTS[lib])]
         self.lineage = [[]]
 
-    @staticmethod
-    def edit(tree, act):
+    def edit(self, tree, act):
         """one AST-API call on `tree` (spec action -> real call)"""
         from pymoca import ast
         a = act["act"]
+        box_path, _, short = act["c"].rpartition(".")
         if a == "add_class":
-            donor = ct.fresh_tree(TEXT)
-            c = donor.classes[act["c"]]
-            donor.remove_class(c)
-            tree.add_class(c)
+            donor = ct.fresh_tree(TEXTS[self.lib])
+            dbox = get_node(donor, box_path) if box_path else donor
+            c = dbox.classes[short]
+            dbox.remove_class(c)
+            (get_node(tree, box_path) if box_path else tree).add_class(c)
             return
-        cls = tree.classes[act["c"]]
+        cls = get_node(tree, act["c"])
         if a == "remove_class":
-            tree.remove_class(cls)
+            (get_node(tree, box_path) if box_path else tree).remove_class(cls)
         elif a == "add_symbol":
             cls.add_symbol(ast.Symbol(name=act["s"], type=ast.ComponentRef(name="Real")))
         elif a == "remove_symbol":
@@ -119,30 +156,45 @@ class Adapter:
             raise MachineryError("unknown action %r" % (act,))
 
     def apply(self, act):
+        """returns the observation of a live flatten, else None"""
         if act["act"] == "deepcopy":
             self.trees.append(copy.deepcopy(self.trees[act["i"] - 1]))
             self.lineage.append(list(self.lineage[act["i"] - 1]))
+        elif act["act"] == "flatten":
+            return flat_obs(self.trees[act["i"] - 1], act["c"])      # on the LIVE tree, not on a snapshot
         else:
             self.lineage[act["i"] - 1].append(act)       # what the user believes this tree now contains
             self.edit(self.trees[act["i"] - 1], act)
+        return None
 
     def snapshot(self):
         return pickle.loads(pickle.dumps(self.trees))
 
     def reference(self, i):
         """tree i as it has to be: fresh parse + the edits of its lineage, no copy involved"""
-        t = ct.fresh_tree(TEXT)
+        t = ct.fresh_tree(TEXTS[self.lib])
         for a in self.lineage[i]:
             self.edit(t, a)
         return t
 
     def observe(self, trees=None):
         trees = self.snapshot() if trees is None else trees
-        return [{c: flat_obs(t, c) for c in CLASSES} for t in trees]
+        return [{c: flat_obs(t, c) for c in self.classes} for t in trees]
 
     def parents(self):
-        return [{c: ("own" if k.parent is t else "none" if k.parent is None else "foreign") for c, k in t.classes.items()}
-                for t in self.trees]
+        out = []
+        for t in self.trees:
+            d = {}
+            for c in self.classes:
+                box_path, _, short = c.rpartition(".")
+                try:
+                    box = get_node(t, box_path) if box_path else t
+                    k = box.classes[short]
+                except KeyError:
+                    continue
+                d[c] = "own" if k.parent is box else "none" if k.parent is None else "foreign"
+            out.append(d)
+        return out
 
 
 def donor_equation(tag):
@@ -158,9 +210,9 @@ def flat_obs(tree, c):
     that come with it (name -> symbol names)"""
     from pymoca import ast, tree as ptree
     try:
-        r = ptree.flatten(tree, ast.ComponentRef(name=c))
+        r = ptree.flatten(tree, ast.ComponentRef.from_string(c))
     except Exception as e:
-        return {"ok": False, "err": type(e).__name__, "syms": [], "eqs": [], "ieqs": [], "funcs": {}}
+        return {"ok": False, "err": type(e).__name__, "msg": str(e)[:120], "syms": [], "eqs": [], "ieqs": [], "funcs": {}}
     names = list(r.classes)
     fc = r.classes[names[-1]]
     return {"ok": True, "err": "", "syms": sorted(fc.symbols), "eqs": sorted(str(e.comment) for e in fc.equations),
@@ -178,7 +230,7 @@ def diff_obs(want, got):
     """[(tree index (1-based), class, wanted, got)] where the property-level observation differs"""
     out = []
     for i, (w, g) in enumerate(zip(want, got)):
-        for c in CLASSES:
+        for c in sorted(w):
             if norm(w[c]) != norm(g[c]):
                 out.append((i + 1, c, norm(w[c]), norm(g[c])))
     if len(want) != len(got):
@@ -188,13 +240,13 @@ def diff_obs(want, got):
 
 def run_history(acts, expects, extras=True, corrupt=None):
     """Replay one history.  Returns {"fail": None | {...}, "drift": [...], "steps": n, "extra_fail": [...]}"""
-    ad = Adapter()
+    ad = Adapter(lib_of(acts))
     res = {"fail": None, "drift": [], "steps": 0, "extra_fail": [], "copy_of_copy": False}
     for k, act in enumerate(acts):
         if act["act"] == "deepcopy" and act["i"] > 1:
             res["copy_of_copy"] = True
         try:
-            ad.apply(act)
+            live = ad.apply(act)
         except MachineryError:
             raise
         except Exception as e:
@@ -203,9 +255,16 @@ def run_history(acts, expects, extras=True, corrupt=None):
             return res
         res["steps"] += 1
         want = expects[k]
+        if live is not None and norm(live) != norm(want[act["i"] - 1][act["c"]]):
+            res["fail"] = {"step": k, "kind": "flatten-on-live-tree", "exc": {"exception_type": live.get("err") or None},
+                           "observed": None, "tree": act["i"], "cls": act["c"],
+                           "detail": "flatten(live tree %d, %s) gives %s %s, required %s" % (
+                               act["i"], act["c"], json.dumps(norm(live)), live.get("msg", ""), json.dumps(norm(want[act["i"] - 1][act["c"]])))}
+            return res
         if corrupt is not None and corrupt == k:
             want = json.loads(json.dumps(want))
-            want[0]["Mid"]["syms"] = want[0]["Mid"]["syms"][:-1]
+            key = "Mid" if "Mid" in want[0] else "Q.D"
+            want[0][key]["syms"] = want[0][key]["syms"][:-1]
         got = ad.observe()
         d = diff_obs(want, got)
         if d:
@@ -231,7 +290,7 @@ def end_of_history(ad, want):
     snaps = ad.snapshot()
     for i in range(len(ad.trees)):
         ref = ad.reference(i)
-        for c in CLASSES:
+        for c in ad.classes:
             a = ct.request(pickle.loads(pickle.dumps(snaps))[i], c, "flatten")
             b = ct.request(pickle.loads(pickle.dumps(ref)), c, "flatten")
             if not ct.same_outcome(a, b):
@@ -244,7 +303,7 @@ def end_of_history(ad, want):
                     out.append({"kind": be + "-vs-uncopied-reference", "tree": i + 1, "cls": c, "probe": True,
                                 "detail": "%s.generate(tree %d, %s): %s %s, uncopied reference %s" % (
                                     be, i + 1, c, ct.short(a), a[2][:120] if a[0] == "exc" else "", ct.short(b))})
-    live = [{c: flat_obs(t, c) for c in CLASSES} for t in ad.trees]      # LAST: flatten may rewrite the live trees (C05)
+    live = [{c: flat_obs(t, c) for c in ad.classes} for t in ad.trees]      # LAST: flatten may rewrite the live trees (C05)
     for i, c, w, g in diff_obs(want, live):
         out.append({"kind": "live-flatten", "tree": i, "cls": c, "probe": False,
                     "detail": "flatten(live tree %d, %s) gives %s, required %s" % (i, c, json.dumps(g), json.dumps(w))})
@@ -289,12 +348,20 @@ def classify(ctx, fails, variant):
         if f.get("probe"):
             h = h + [{"act": "deepcopy", "i": f["tree"]}]     # sympy/xml deep-copy the tree: look at a hypothetical copy
         hs.append(h)
-    evs = eval_histories(ctx, hs, "ClassTreeCopyTrace_asbuilt%s.cfg" % variant, "as-built evaluation of %d deviating histories" % len(hs))
+    evs = [None] * len(hs)
+    for lib, suffix in (("flat", ""), ("pkg", "_pkg")):
+        idx = [k for k, h in enumerate(hs) if lib_of(h) == lib]
+        got = eval_histories(ctx, [hs[k] for k in idx], "ClassTreeCopyTrace_asbuilt%s%s.cfg" % (variant, suffix),
+                             "as-built evaluation of %d deviating histories (%s library)" % (len(idx), lib))
+        for k, e in zip(idx, got):
+            evs[k] = e
     tags = []
     for (acts, f), ev in zip(fails, evs):
         last = ev[-1]
         if f["kind"] == "api-call-raised":
             tags.append(EXPLAINS if last["raises"] else NOT_EXPLAINS)
+        elif f["kind"] == "flatten-on-live-tree":
+            tags.append(NOT_EXPLAINS)
         elif f["kind"] == "flatten-after-edit":
             tags.append(EXPLAINS if not diff_obs(last["asbuilt"], f["observed"]) and not last["raises"] else NOT_EXPLAINS)
         else:
@@ -337,7 +404,9 @@ def run(ctx):
     # ---- 1. TLC: property on the spec -----------------------------------------------------------------
     # quick: the variant that matches how tree.flatten of this tree looks the class up; thorough: both, plus the
     # explicit as-built counterexample run (in quick the non-empty DEV log below is the evidence that as-built deviates)
-    cfgs = ("ClassTreeCopy_intended.cfg", "ClassTreeCopy_intended_topcopy.cfg") if thorough else ("ClassTreeCopy_intended%s_q.cfg" % variant,)
+    cfgs = ("ClassTreeCopy_intended.cfg", "ClassTreeCopy_intended_topcopy.cfg", "ClassTreeCopy_intended_pkg.cfg",
+            "ClassTreeCopy_intended_pkg_topcopy.cfg") if thorough else (
+        "ClassTreeCopy_intended%s_q.cfg" % variant, "ClassTreeCopy_intended_pkg%s_q.cfg" % variant)
     for cfg in cfgs:
         r = tlc.run("ClassTreeCopy", cfg, workers=min(procs, 8))
         ctx.add_tlc(r, "intended: PointerSemanticsIsValueSemantics, ParentClosed, NoRaise, Independence, CopyFaithful; histories <= 4, 3 trees")
@@ -367,11 +436,13 @@ def run(ctx):
     #   u2 (2 trees): additions to EMPTY containers (symbol on Bare, equation on Leaf, initial equation on Top) and
     #                 edits of the called function f
     #   u3 (3 trees): Bare / f edits with copies of copies
-    # quick: u1 with 2 trees, u2, u3 - each replayed completely; thorough: u1 with 3 trees as well
+    # value-state graphs, each replayed completely.  quick: u1 / u2 / p1 with 2 trees, u3 / u4 with 3 trees;
+    # thorough: u1 and p1 with 3 trees as well
     graphs = []
-    cfgs = [("u1-2trees", "ClassTreeCopy_graph2_u1.cfg"), ("u2", "ClassTreeCopy_graph2_u2.cfg"), ("u3", "ClassTreeCopy_graph3_u3.cfg")]
+    cfgs = [("u1-2trees", "ClassTreeCopy_graph2_u1.cfg"), ("u2", "ClassTreeCopy_graph2_u2.cfg"), ("u3", "ClassTreeCopy_graph3_u3.cfg"),
+            ("u4", "ClassTreeCopy_graph3_u4.cfg"), ("p1-2trees", "ClassTreeCopy_graph2_p1.cfg")]
     if thorough:
-        cfgs.append(("u1-3trees", "ClassTreeCopy_graph3_u1.cfg"))
+        cfgs += [("u1-3trees", "ClassTreeCopy_graph3_u1.cfg"), ("p1-3trees", "ClassTreeCopy_graph3_p1.cfg")]
     for name, cfg in cfgs:
         rg = tlc.run("ClassTreeCopy", cfg, workers=1, timeout=1800)
         ctx.add_tlc(rg, "intended value-state graph, edit universe %s, TR-log" % name)
@@ -426,7 +497,7 @@ def run(ctx):
         if kind.endswith("tour"):
             ctx.sample({"kind": kind, "history": acts[:5], "expected_after_step_5": expects[min(4, len(expects) - 1)],
                         "deviation": res["fail"]["detail"][:300] if res["fail"] else None}, limit=3)
-    for a in ("deepcopy", "add_symbol", "remove_symbol", "add_equation", "remove_equation", "add_initial_equation",
+    for a in ("deepcopy", "flatten", "add_symbol", "remove_symbol", "add_equation", "remove_equation", "add_initial_equation",
               "remove_initial_equation", "add_class", "remove_class"):
         if not cov["actions"].get(a):
             raise MachineryError("vacuous: action %s never replayed" % a)
@@ -465,8 +536,10 @@ def run(ctx):
 def replay(ctx, sc):
     variant = _variant()
     hist = sc["history"]
-    ev = eval_histories(ctx, [hist], "ClassTreeCopyTrace_intended.cfg", "expected observations of the replayed history")[0]
-    res = run_history(hist, [e["expect"] for e in ev], extras=sc["kind"] not in ("flatten-after-edit", "api-call-raised"))
+    ev = eval_histories(ctx, [hist], "ClassTreeCopyTrace_intended%s.cfg" % ("_pkg" if lib_of(hist) == "pkg" else ""),
+                        "expected observations of the replayed history")[0]
+    res = run_history(hist, [e["expect"] for e in ev],
+                      extras=sc["kind"] not in ("flatten-after-edit", "api-call-raised", "flatten-on-live-tree"))
     fails = []
     if res["fail"]:
         fails.append((hist, res["fail"]))
